@@ -47,7 +47,7 @@ def family(ctx, tags=None) -> List[Skeleton]:
 def family_results(ctx, tags=None, jobs: Optional[int] = None) -> Tuple[List[Result], Dict[str, int]]:
     fam = family(ctx, tags)
     _G["program"], _G["family"] = ctx.p, fam
-    jobs = jobs or min(16, os.cpu_count() or 4, max(1, len(fam) // 4))
+    jobs = jobs or int(os.environ.get("JASMSA_JOBS", "0") or 0) or min(16, os.cpu_count() or 4, max(1, len(fam) // 4))
     chunks: List[List[int]] = [list(range(len(fam)))[k::jobs] for k in range(jobs)]
     chunks = [c for c in chunks if c]
     if jobs > 1:
